@@ -544,7 +544,11 @@ fn relations_hold<E: Elt>(lanes: usize, kmax: usize, main: &RowMajorMatrix<F>, p
         let row: Vec<F> = main.row_slice(r).unwrap().to_vec();
         let prow: Vec<F> = prep.row_slice(r).unwrap().to_vec();
         let prev: Vec<F> = main.row_slice((r + h - 1) % h).unwrap().to_vec();
-        let prev_out: E = get(&prev, 3 * d);
+        let pprev: Vec<F> = prep.row_slice((r + h - 1) % h).unwrap().to_vec();
+        // the accumulator a Horner row *means*: the previous step's output inside a chain, zero at
+        // the start of a chain (previous lane-0 entry is a separator / padding / another kind) —
+        // whatever the previous row's `out` cell holds
+        let prev_out: E = if pprev[4] == F::ONE { get(&prev, 3 * d) } else { E::ZERO };
         for lane in 0..lanes {
             let m = lane * 4 * d;
             let p = lane * 13;
@@ -687,6 +691,44 @@ fn sched_case<E: Elt>(rng: &mut Rng, kind: Kind, hist: &mut BTreeMap<String, u64
             violations.push(json!({"property":"C11","kind": if rejected {"row-rejected-but-relation-holds"} else {"row-accepted-but-relation-fails"},
                 "class": if rejected {"rejects-valid-row"} else {"accepts-invalid-row"}, "replay": rp}));
         }
+    }
+    // chain-start forgery: the accumulator of a chain's first step is read from the previous row's
+    // lane-0 `out` cell, which on a separator row is bound by nothing unless the AIR pins it to
+    // zero. Put X there and re-derive the first step's `out` (single-step first rows whose chain
+    // ends there, so no later row has to be recomputed): the AIR must reject.
+    for r in 0..main.height() {
+        let h = main.height();
+        let pr = (r + h - 1) % h;
+        let nx = (r + 1) % h;
+        let prow: Vec<F> = prep.row_slice(r).unwrap().to_vec();
+        let pprev: Vec<F> = prep.row_slice(pr).unwrap().to_vec();
+        let pnext: Vec<F> = prep.row_slice(nx).unwrap().to_vec();
+        let extra_prep = lanes * 13;
+        let packed = (2..=kmax).any(|kk| prow[extra_prep + kk - 2] == F::ONE);
+        if prow[0] == F::ZERO || prow[4] != F::ONE || packed || pprev[0] != F::ZERO || pnext[4] == F::ONE {
+            continue;
+        }
+        let get = |row: &[F], off: usize| -> E { E::from_basis_coefficients_slice(&row[off..off + d]).unwrap() };
+        let row: Vec<F> = main.row_slice(r).unwrap().to_vec();
+        let (a, b, c): (E, E, E) = (get(&row, 0), get(&row, d), get(&row, 2 * d));
+        let x: E = rand_elt(rng);
+        if x * b == E::ZERO {
+            continue;
+        }
+        let mut m2 = main.clone();
+        m2.values[pr * w + 3 * d..pr * w + 4 * d].copy_from_slice(x.as_basis_coefficients_slice());
+        let new_out = x * b + c - a;
+        m2.values[r * w + 3 * d..r * w + 4 * d].copy_from_slice(new_out.as_basis_coefficients_slice());
+        let holds = relations_hold::<E>(lanes, kmax, &m2, &prep);
+        let rejected = eval_all_windows(d, lanes, kmax, kind, &m2, &prep).is_some();
+        evals += 1;
+        *hist.entry(format!("chain-start-forgery.{}", if rejected { "rejected" } else { "accepted" })).or_default() += 1;
+        if !holds && !rejected {
+            let mut rp = desc.clone();
+            rp["tamper"] = json!({"separator_row": pr, "horner_row": r, "what": "separator out cell := X, first step out := X*b + c - a"});
+            violations.push(json!({"property":"C11","kind":"row-accepted-but-relation-fails","class":"accepts-invalid-row","replay": rp}));
+        }
+        break;
     }
     evals
 }
